@@ -313,7 +313,10 @@ def held_tensors(p):
 
 
 def held_unique(p):
-    return p._uniq.get_unique_objs(held_tensors(p))
+    # (object parameters are listed per slot since the repair of the stale alias map; on a tree that still has the map, the unique ones)
+    if hasattr(p, "_uniq"):
+        return p._uniq.get_unique_objs(held_tensors(p))
+    return list(held_tensors(p))
 
 
 def _all_subclasses(c):
